@@ -118,12 +118,19 @@ def check_tree(case, ev):
             with open(os.path.join(dst, "keep.txt"), "wb") as fh:
                 fh.write(b"unrelated\n")
             pre["keep.txt"] = b"unrelated\n"
+        if case.get("stale") and not case.get("nested_out"):
+            # an earlier run left LONGER files at some of the output paths: they are overwritten entirely
+            for rel, spec in case["files"]:
+                if rel not in blocked and not os.path.basename(rel).startswith(".") and len(rel) % 2 == 0:
+                    os.makedirs(os.path.dirname(os.path.join(dst, rel)) or dst, exist_ok=True)
+                    with open(os.path.join(dst, rel), "wb") as fh:
+                        fh.write(_bytes(spec) + b"left over from an earlier run\n" * 40)
         for rel in blocked:
             os.makedirs(os.path.join(dst, rel))
         before = {rel: (data, os.stat(os.path.join(src, rel)).st_mtime_ns) for rel, data in files}
         order = _walk_order(src)
         with core.capture_logs(logging.ERROR) as errs:
-            _, exc = guarded(anonymize_files, src, dst, **_opts(case))
+            _, exc = guarded(anonymize_files, src + (os.sep if case.get("trailing_sep") else ""), dst, **_opts(case))
         if exc is not None:
             return core.exc_finding(exc, case, "anonymize_files/")
         errs = [m for lv, m in errs]
@@ -211,7 +218,7 @@ def check_tree(case, ev):
                 )
         # (3) entry points on the fault-free tree
         dst3 = os.path.join(d, "cli-out")
-        argv = ["-i", src2, "-o", dst3, "-s", case["salt"]]
+        argv = ["-i", src2 + (os.sep if case.get("trailing_sep") else ""), "-o", dst3, "-s", case["salt"]]
         pwd, ip, words, asn = case["features"]
         argv += ["--preserve-host-bits", str(case.get("B", 8))] if case.get("B", 8) != 8 or case.get("single") else []
         argv += (["-p"] if pwd else []) + (["-a"] if ip else []) + (["-w", ",".join(WORDS)] if words else []) + (["-n", ",".join(ASNS)] if asn else [])
@@ -278,8 +285,8 @@ def check_tree(case, ev):
 
 REPLAY = {"trees": check_tree}
 
-_NAMES = ["a.cfg", "router 1.cfg", "ré.conf", "UPPER.CFG", "z-last", "b.txt", "core-sw", "edge.cfg", "m.cfg", ".hidden", ".router.swp", "x.y.z"]
-_DIRS = ["", "", "sub", "sub/deep", "site a", ".dot", "sub/.git", "ré", "sub/deep/er"]
+_NAMES = ["a.cfg", "A.cfg", "upper.cfg", "router 1.cfg", "ré.conf", "UPPER.CFG", "z-last", "b.txt", "core-sw", "edge.cfg", "m.cfg", ".hidden", ".router.swp", "x.y.z"]
+_DIRS = ["", "", "sub", "Sub", "sub/Deep", "sub/deep", "site a", ".dot", "sub/.git", "ré", "sub/deep/er"]
 
 
 @st.composite
@@ -342,6 +349,8 @@ def _case(draw):
         "single": draw(st.booleans()),
         "nested_out": draw(st.integers(0, 5)) == 0,
         "B": draw(st.sampled_from([8, 8, 0, 12, 32])),
+        "trailing_sep": draw(st.integers(0, 3)) == 0,
+        "stale": draw(st.integers(0, 3)) == 0,
     }
 
 
